@@ -276,6 +276,17 @@ def oracle(inp):
     if not unsafe:
         if got != want:
             return f"safe stream: delivered events differ from frame-by-frame decoding: want={want!r} got={got!r}"
+        # the bytes a parse error hands to the application as remaining_data are the received bytes after the bad frame
+        received, k = 0, 0
+        for r in rounds:
+            received += r[0]
+            for e in r[1]:
+                if e[0] == 1 and k < len(frames):
+                    after = frames[k][1] + seplen
+                    if bytes(e[2]) != stream[after:received]:
+                        return (f"safe stream: the parse error of frame {k} carries remaining_data {bytes(e[2])!r}, "
+                                f"the received bytes after that frame are {stream[after:received]!r}")
+                k += 1
         return None
     if len(got) < len(want) or got[len(got) - len(want):] != want:
         return (f"after a size-rejected frame delivery did not resume intact with the frame after its terminator: "
